@@ -249,7 +249,7 @@ def answerRun (fs : List String) : String :=
           let pan := match (field fs "panic").bind decEvent with
             | none => "-"
             | some pe =>
-              if pe.stage == 101 then "-"   -- the reduce operator: its invocations are not part of the logged model
+              if pe.stage == 101 || pe.stage ≥ 103 then "-"   -- reduce operator, key / comparator / identity closures: not part of the logged model
               else match panicPred steps.1.2 Pf t pe with
               | .yes => "yes"
               | .maybe => "maybe"
